@@ -4,17 +4,23 @@
    protocol): 2 perturbations x 3 sample values, all 9 combinations of sampler kinds
    (scalar / cycling range / seeded stream), all 81 random streams, with and without a
    compensator, three failure sets, two sessions built with the same seed.  RowsTrue,
-   NominalReproduced, Reproducible, EndStateNominal and ResetRestores hold for the
-   protocol with both resets; two negative configurations document what they guard:
-   without the reset after the last trial TLC must report EndStateNominal violated, and
-   without the reset before each trial it must report RowsTrue violated.
+   NominalReproduced, Reproducible, EndStateNominal, ResetRestores and HandlesNominal hold
+   for the protocol with both resets, also when the user goes on with the same object
+   after the run (up to four what-if steps: Perturbation.apply / apply_compensators in any
+   order, then reset()); negative configurations document what they guard: without the
+   reset after the last trial TLC must report EndStateNominal violated, without the reset
+   before each trial RowsTrue, and with a compensation that re-bases its handle
+   EndStateNominal again - but only through a what-if history (the run alone satisfies
+   every property with it, which TLC also confirms).
 2. code -> spec: real SensitivityAnalysis / MonteCarlo runs on small lenses (every
    variable type as perturbation, every sampler kind, with / without compensator, rows
    with an undefined operand), recorded by harness/tolrec.py - each row next to its
    re-derivation on a from_dict(to_dict()) copy of the nominal lens - and validated by
    spec/Trace_Tolerancing.tla in exact dyadic arithmetic; every analysis is built and run
    twice with the same seeds (reproducibility), and the projection is compared before
-   the run, after the run and after reset().
+   the run, after the run and after reset(); some sessions go on after the run with the
+   what-if history of the model (perturb, compensate, perturb, compensate, [run again,]
+   reset()), and some put a tolerance on the compensator's own parameter.
 3. calibration: corrupted copies of accepted records must be rejected, clause by clause.
 """
 import copy
@@ -35,18 +41,26 @@ def model_checks(ctx):
 
     def variant(name):
         text = open(os.path.join(T.SPEC, name)).read()
-        if not quick:       # three trials, streams of six draws
-            text = re.sub(r"NTrials = \d+", "NTrials = 3", text).replace("Streams <- Streams4", "Streams <- Streams6")
+        if not quick:       # three trials, streams of six draws (the what-if configurations keep four draws)
+            text = re.sub(r"NTrials = \d+", "NTrials = 3", text)
+            if "whatif" not in name:
+                text = text.replace("Streams <- Streams4", "Streams <- Streams6")
         path = os.path.join(ctx.work, "v_" + name)
         with open(path, "w") as fh:
             fh.write(text)
         return path
     for name in ("MC_Tolerancing_mc.cfg", "MC_Tolerancing_mc_nocomp.cfg", "MC_Tolerancing_sens.cfg",
-                 "MC_Tolerancing_sens_nocomp.cfg"):
+                 "MC_Tolerancing_sens_nocomp.cfg",
+                 # after the run the user goes on with the same object (up to four what-if steps), then reset()
+                 "MC_Tolerancing_sens_whatif.cfg", "MC_Tolerancing_mc_whatif.cfg",
+                 # a compensation that re-bases its handle is invisible to the run alone (every property holds) ...
+                 "MC_Tolerancing_sens_rebases_nouser.cfg"):
         ctx.model_check("MC_Tolerancing", variant(name), workers=8, timeout=800)
     neg = {}
     for name, want in (("MC_Tolerancing_mc_nofinalreset.cfg", "EndStateNominal"),
-                       ("MC_Tolerancing_sens_notrialreset.cfg", "RowsTrue")):
+                       ("MC_Tolerancing_sens_notrialreset.cfg", "RowsTrue"),
+                       # ... and is exposed by a what-if history (two compensations without a reset, then reset())
+                       ("MC_Tolerancing_sens_whatif_rebases.cfg", "EndStateNominal")):
         r = ctx.model_check("MC_Tolerancing", variant(name), workers=8, timeout=800, must_pass=False)
         if want not in r.violated:
             raise T.MachineryError("negative configuration %s: TLC was expected to report %s violated, got %r\n%s"
@@ -85,6 +99,12 @@ def make_cases(ctx):
             for comp in (False, True):
                 add(analysis=analysis, family="std", fail=True, comp=comp, nperts=rnd.choice([1, 2]),
                     iters=3)
+        # histories beyond one run: the user's own perturb / compensate / perturb / compensate / reset()
+        # on the same Tolerancing object (and a run after it); a tolerance on the compensator's own parameter
+        for analysis in ("sens", "mc"):
+            add(analysis=analysis, family="std", comp=True, whatif=True, method=rnd.choice(["generic", "least_squares"]), iters=2)
+            add(analysis=analysis, family="std", comp=True, whatif="rerun", iters=2, nperts=rnd.choice([1, 2]))
+            add(analysis=analysis, family="std", comp=True, own=True, iters=3, nperts=rnd.choice([1, 2]))
         # an index perturbation on a catalogue glass
         add(analysis=rnd.choice(["sens", "mc"]), family="glass", want_type="index", nperts=1)
         # random
